@@ -186,6 +186,16 @@ def defect_positions():
         ("service tag name", "tags: ", setp(["services", "c", "tags"], ["bad tag"])),
         ("service tag dup", "duplicate", setp(["services", "b", "tags"], ["t", "t"])),
         ("decorator tag", "tag: invalid", setp(["decorators"], [{"tag": "bad tag", "decorator": "fx.Dec1"}])),
+        # twins: the same kind of violation with the same offending text in two entries — each one is reported, naming its own key
+        ("import alias twin 1 (same path)", 'invalid alias "tw 1"', setp(["meta", "imports", "tw 1"], "tw/in")),
+        ("import alias twin 2 (same path)", 'invalid alias "tw 2"', setp(["meta", "imports", "tw 2"], "tw/in")),
+        ("import alias after a valid one with the same path", 'invalid alias "zfx 2"', setp(["meta", "imports", "zfx 2"], gen.FX)),
+        ("constructor twin 1", '"tw1": constructor: invalid', setp(["services", "tw1"], {"constructor": "New X"})),
+        ("constructor twin 2", '"tw2": constructor: invalid', setp(["services", "tw2"], {"constructor": "New X"})),
+        ("call shapes: name only / name + empty list", 'calls: 1: method: invalid "Set Up"', setp(["services", "tw3"], {"value": "fx.Global", "calls": [["Set Up"], ["Set Up", []], ["Ok"]]})),
+        ("call name only", '"tw4": calls: 0: method: invalid', setp(["services", "tw4"], {"value": "fx.Global", "calls": [["Set Up"]]})),
+        ("param twin 1", '"tw p1"', setp(["parameters", "tw p1"], [1])),
+        ("param twin 2", '"tw p2"', setp(["parameters", "tw p2"], [1])),
     ]
 
 
